@@ -31,7 +31,7 @@ Definition typedef_ok (n : string) (t : typedef_t) : Prop :=
   match td_alias t with AVar _ _ => exists m, td_target t = Ident m | _ => True end.
 
 Definition enum_ok (e : enum_t) : Prop :=
-  (forall p, In p (en_variants e) -> exists x, snd p = VNum x /\ (0 <= x)%Z) /\
+  (forall p, In p (en_variants e) -> exists x, snd p = VNum x /\ (0 <= x < 2147483648)%Z) /\
   NoDup (map snd (en_variants e)).
 
 Definition selects (md : module_ir) (arms : list (matcher * string * option dexp)) (fb : fallback)
@@ -255,11 +255,11 @@ Section RT.
     intros [Hnum Hnd] Hin. apply in_split in Hin as [pre [post E]]. exists pre, post.
     split; [exact E|]. rewrite E in Hnd, Hnum. split.
     - apply Forall_forall. intros p Hp. destruct (Hnum p) as [x [Hx Hx0]]; [apply in_or_app; now left|].
-      exists x. split; [exact Hx|]. split; [|exact Hx0]. intros ->.
+      exists x. split; [exact Hx|]. split; [|lia]. intros ->.
       rewrite map_app in Hnd. cbn [map snd] in Hnd. apply NoDup_remove_2 in Hnd. apply Hnd.
       apply in_or_app. left. apply in_map_iff. exists p. split; [exact Hx|exact Hp].
     - destruct (Hnum (m, VNum v)) as [x [Hx Hx0]]; [apply in_or_app; right; now left|].
-      cbn in Hx. inversion Hx; subst. exact Hx0.
+      cbn in Hx. inversion Hx; subst. lia.
   Qed.
 
   Lemma fexp_of_plain a fe :
